@@ -29,8 +29,15 @@ def gen_term(name: str, k: int, *args: Any, **kwargs: Any):
         yield (name, i, tuple(args), tuple(sorted(kwargs.items())))
 
 
+def none_term(name: str, *args: Any, **kwargs: Any) -> None:
+    """a task whose value is None (what every Python function without a return statement gives)"""
+    return None
+
+
 @functools.lru_cache(maxsize=None)
-def _enc(name: str, k: int) -> str:
+def _enc(name: str, k: int, none: bool = False) -> str:
+    if none:
+        return TaskDefinition.func_enc(functools.partial(none_term, name))
     if k == 1:
         return TaskDefinition.func_enc(functools.partial(term, name))
     return TaskDefinition.func_enc(functools.partial(gen_term, name, k))
@@ -64,7 +71,7 @@ class JobSpec:
                     kwparams[dp] = "Any"
             tasks[t] = TaskInstance(
                 definition=TaskDefinition(
-                    func=_enc(t, len(outs)),
+                    func=_enc(t, len(outs), bool(d.get("none"))),
                     entrypoint="",
                     environment=[],
                     input_schema=kwparams,
